@@ -73,7 +73,7 @@ func posHook1(o *eng.Op) { o.HFault = &eng.HFault{Name: "h1", Nth: 0} }
 func posHook2(o *eng.Op) { o.HFault = &eng.HFault{Name: "h2", Nth: 0} }
 
 func c03MultiExhaustive(tier string) []any {
-	var out []any
+	out := c03TwoFaults(tier)
 	// the upgrade under test keeps every key an earlier revision had (no K6 by construction) and adds d
 	up5 := c12Op("upgrade", 5, eng.Flags{}, c03Hooks, "a", "b", "c", "d")
 	in5 := c12Op("install", 5, eng.Flags{Replace: true}, c03Hooks, "a", "b", "c", "d")
@@ -109,6 +109,43 @@ func c03MultiExhaustive(tier string) []any {
 			add(in5, eng.Flags{}, posPatchA, posHook1)
 		}
 	}
+	return out
+}
+
+// c03TwoFaults: TWO cluster faults in ONE operation — the failing step (the readiness wait / a post-upgrade hook / a
+// rejected PATCH) and a rejected DELETE that can only be met by the clean-up of --cleanup-on-fail (the key is created
+// by this very upgrade, so neither the update's deletion phase nor a hook ever deletes it): failRelease must have
+// recorded the revision failed BEFORE the clean-up gives up (seeded C03-10 moves the record behind it).  Secret
+// backend: the records are serialised, a status that is only set in memory does not reach the ledger.
+func c03TwoFaults(tier string) []any {
+	var out []any
+	inst := c12Op("install", 1, eng.Flags{}, c03Hooks, "a", "b")
+	up := c12Op("upgrade", 2, eng.Flags{Cleanup: true}, c03Hooks, "a", "b", "c", "d") // creates c and d
+	first := []func(*eng.Op){posWait, posHook2}
+	if tier == "thorough" {
+		first = append(first, func(o *eng.Op) { o.WaitFail = true; o.Flags.WaitForJobs = true })
+	}
+	for _, f := range first {
+		for _, key := range []string{"ConfigMap/c", "ConfigMap/d"} {
+			for _, atomic := range []bool{false, true} {
+				if atomic && tier != "thorough" && key == "ConfigMap/d" {
+					continue
+				}
+				o := *up
+				o.Flags.Atomic = atomic
+				f(&o)
+				o.KFault = &eng.KFault{Verb: "delete", Key: key}
+				out = append(out, hist(inst, &o))
+			}
+		}
+	}
+	// the same in a rollback --cleanup-on-fail whose wait fails cannot happen (its clean-up runs only after a failed
+	// update); after a failed upgrade that left its revision failed: the next upgrade with the two faults
+	o := *up
+	o.ChartID, o.ValsID = 3, 3
+	posWait(&o)
+	o.KFault = &eng.KFault{Verb: "delete", Key: "ConfigMap/c"}
+	out = append(out, hist(inst, withWait(c12Op("upgrade", 2, eng.Flags{}, c03Hooks, "a", "b")), &o))
 	return out
 }
 
